@@ -329,9 +329,13 @@ def channels (i : Input) : List Channel :=
   else if i.mode == "form_post" then (if i.isError then [.form, dflt] else [.form])
   else [dflt]
 
-/-- parameters named by the statement: these must arrive.  Others (`scope`) must be unaltered when they arrive. -/
+/-- parameters of an authorization response named by the statement (code, state, session_state, tokens, error,
+    error_description): these must arrive.  The tokens of an authorization response are `access_token` (with
+    `token_type`, `expires_in`) and `id_token`; a `refresh_token` is never part of one (RFC 6749 §4.2.2, OIDC Core
+    §3.2.2.5 / §3.3.2.5: it is issued by the token endpoint only).  Other names (`scope`, `refresh_token`, anything
+    else a caller puts into the response) must be unaltered when they arrive. -/
 def required (k : Bytes) : Bool :=
-  ["code", "state", "session_state", "access_token", "id_token", "refresh_token", "token_type", "expires_in", "error", "error_description"].any (s · == k)
+  ["code", "state", "session_state", "access_token", "id_token", "token_type", "expires_in", "error", "error_description"].any (s · == k)
 
 def firstSome {α} (l : List α) (f : α → Option String) : Option String := l.findSome? f
 
@@ -350,9 +354,19 @@ def paramsArrive (what : String) (produced existing got : List (Bytes × Bytes))
   <|> (firstSome (keysOf got) fun k =>
     if (keysOf produced).contains k || (keysOf existing).contains k then none else some s!"{what}-param-invented:{showBytes k}")
 
+/-- settings of a query string that `parseQuery` does not read as a parameter (an unescaped `;`, a malformed
+    escape).  Other decoders do read them (`URLSearchParams` takes `a;b=1` as the parameter `a;b`), so they belong
+    to the redirect URI's query like any other setting and have to stay as they are. -/
+def unread (q : Bytes) : List Bytes := (splitOn 0x26 q).filter fun seg => !seg.isEmpty && (parsePair seg).isNone
+
+/-- the settings of the redirect URI's query that are not read as parameters are still in the Location's query, unchanged -/
+def unreadKept (uriQuery locQuery : Bytes) : Option String :=
+  if unread locQuery == unread uriQuery then none else some "existing-query-not-preserved:unread-setting"
+
 def checkQuery (i : Input) (loc : Bytes) : Option String :=
   if !sameTarget (locationBase loc) (locationBase i.uri) then some "redirect-target-differs" else
   paramsArrive "query" i.params (parseQuery (locationQuery i.uri)) (parseQuery (locationQuery loc))
+  <|> unreadKept (locationQuery i.uri) (locationQuery loc)
 
 def checkFragment (i : Input) (loc : Bytes) : Option String :=
   if !sameTarget (locationBase loc) (locationBase i.uri) then some "redirect-target-differs" else
@@ -361,6 +375,7 @@ def checkFragment (i : Input) (loc : Bytes) : Option String :=
   | some f =>
     paramsArrive "fragment" i.params [] (parseQuery f)
     <|> paramsArrive "query" [] (parseQuery (locationQuery i.uri)) (parseQuery (locationQuery loc))
+    <|> unreadKept (locationQuery i.uri) (locationQuery loc)
 
 /-- the fixed part of the auto-submitting page: these start tags, with exactly these attributes -/
 def pageFrame : List Tag :=
